@@ -44,7 +44,7 @@ func main() {
 		os.Exit(replayMain(os.Args[2]))
 	case "list":
 		for _, id := range checkIDs() {
-			fmt.Println(id)
+			fmt.Printf("%s quick=%d thorough=%d jobs\n", id, len(checkTable[id].jobs("quick")), len(checkTable[id].jobs("thorough")))
 		}
 	case "job":
 		if len(os.Args) < 4 {
